@@ -28,10 +28,18 @@
 //! Facts taken from the crate docs (rule.rs, README "Rules", fixture/*.rs):
 //! all three install points feed one ordered chain; `RuleGuard::forget` (and
 //! therefore `mem::forget`) leaves the rule installed; uninstalling twice is a
-//! no-op; loopback is folded inside `Kernel::egress`.  A packet addressed to
-//! one of the sending host's *own* addresses is folded too (`is_local`), which
-//! the docs do not promise either way: such packets are treated as loopback
-//! when no rule saw them and as ordinary packets when one did.
+//! no-op; loopback is folded inside `Kernel::egress`.
+//!
+//! Traffic that stays on its host.  rule.rs / lib.rs / README say rules see
+//! "each non-loopback packet *leaving a host*"; `Kernel::egress` is documented
+//! to append to `out` only "those [packets] leaving this host" and
+//! `Kernel::is_local` to be true for "one of this host's local addresses
+//! (including implicit loopback)".  A packet a host addresses to one of its
+//! OWN configured addresses (literal v4 / v6, or the hostname it was
+//! registered under) therefore never leaves the host: it must not surface in
+//! `egress_all`, must not be shown to any rule and must arrive whatever the
+//! installed rules say — exactly like 127.0.0.1 / ::1 / "localhost" traffic.
+//! Both are asserted (signatures `loopback: ..` and `own-address: ..`).
 
 use crate::engine::{replay_as, Ctx, Outcome, Tier};
 use proptest::prelude::*;
@@ -116,6 +124,11 @@ pub enum Dest {
     Own,
     /// an address no host owns
     Nowhere,
+    /// the sending host's own address, named by the hostname the host was registered under
+    /// (resolved by the shim's `ToSocketAddrs`; the name table allocates IPv4 addresses)
+    OwnName,
+    /// loopback named as "localhost"
+    LoName,
 }
 
 #[derive(Clone, Debug, Serialize, Deserialize)]
@@ -235,6 +248,8 @@ pub enum Ev {
     Tcp { host: usize, dst: DK, outcome: String },
     Served { host: usize, bytes: usize },
     Sanity(String),
+    /// classification only
+    Note(&'static str),
 }
 
 #[derive(Clone, Debug, Serialize)]
@@ -317,6 +332,39 @@ fn host_ip(h: usize, v6: bool) -> IpAddr {
         IpAddr::V4(Ipv4Addr::new(10, 0, 0, (h + 1) as u8))
     }
 }
+/// The address the name table gives host `h`'s hostname: hosts are registered in index order and
+/// names are allocated from 192.168.0.0/16 in order of first sight (checked at run time).
+fn name_ip(h: usize) -> IpAddr {
+    IpAddr::V4(Ipv4Addr::new(192, 168, 0, (h + 1) as u8))
+}
+fn host_name(h: usize) -> String {
+    format!("h{h}")
+}
+/// What a host is registered with: its v4 and v6 literals and its hostname.
+fn host_addrs(h: usize) -> [String; 3] {
+    [host_ip(h, false).to_string(), host_ip(h, true).to_string(), host_name(h)]
+}
+/// Host owning a (non-loopback) address of this harness' topology.
+fn ip_owner(ip: IpAddr) -> Option<usize> {
+    match ip {
+        IpAddr::V4(a) => {
+            let o = a.octets();
+            if (o[0] == 10 && o[1] == 0 && o[2] == 0 || o[0] == 192 && o[1] == 168 && o[2] == 0) && (1..=3).contains(&o[3]) {
+                Some(o[3] as usize - 1)
+            } else {
+                None
+            }
+        }
+        IpAddr::V6(a) => {
+            let g = a.segments();
+            if g[0] == 0xfd00 && g[1..7].iter().all(|x| *x == 0) && (1..=3).contains(&g[7]) {
+                Some(g[7] as usize - 1)
+            } else {
+                None
+            }
+        }
+    }
+}
 fn lo_ip(v6: bool) -> IpAddr {
     if v6 {
         IpAddr::V6(Ipv6Addr::LOCALHOST)
@@ -339,16 +387,26 @@ fn nowhere_ip(v6: bool) -> IpAddr {
     }
 }
 
-fn resolve(env: &Env, src: usize, d: Dest, v6: bool) -> (DK, IpAddr) {
+/// How a destination is handed to the shim: a literal address or a hostname.
+#[derive(Clone, Debug)]
+enum Target {
+    Ip(IpAddr),
+    Name(String),
+}
+
+/// Destination kind, target and effective family (names resolve to IPv4).
+fn resolve(env: &Env, src: usize, d: Dest, v6: bool) -> (DK, Target, bool) {
     let lo_mode = env.mode == Mode::Lo;
     match d {
         Dest::Peer(k) if !lo_mode => {
             let h = (src + 1 + k as usize % (env.n - 1)) % env.n;
-            (DK::Remote(h), host_ip(h, v6))
+            (DK::Remote(h), Target::Ip(host_ip(h, v6)), v6)
         }
-        Dest::Own if !lo_mode => (DK::Own, host_ip(src, v6)),
-        Dest::Peer(_) | Dest::Nowhere => (DK::Nowhere, nowhere_ip(v6)),
-        Dest::Loopback | Dest::Own => (DK::Loop, lo_ip(v6)),
+        Dest::Own if !lo_mode => (DK::Own, Target::Ip(host_ip(src, v6)), v6),
+        Dest::OwnName if !lo_mode => (DK::Own, Target::Name(host_name(src)), false),
+        Dest::Peer(_) | Dest::Nowhere => (DK::Nowhere, Target::Ip(nowhere_ip(v6)), v6),
+        Dest::Loopback | Dest::Own => (DK::Loop, Target::Ip(lo_ip(v6)), v6),
+        Dest::LoName | Dest::OwnName => (DK::Loop, Target::Name("localhost".into()), false),
     }
 }
 
@@ -527,7 +585,14 @@ async fn actor(env: Rc<Env>, idx: usize, h: usize, ops: Vec<Op>) {
                 }
             }
             Op::Udp { dst, port, class, v6 } => {
-                let (dk, ip) = resolve(&env, h, dst, v6);
+                let (dk, target, v6) = resolve(&env, h, dst, v6);
+                if let (DK::Own, Target::Name(name)) = (dk, &target) {
+                    let got = turmoil_net::lookup_host(name);
+                    if got != Some(name_ip(h)) {
+                        env.log(Ev::Sanity(format!("hostname {name} of host {h} resolves to {got:?}, expected {}", name_ip(h))));
+                        continue;
+                    }
+                }
                 let port = port % 2;
                 let slot = v6 as usize;
                 if socks[slot].is_none() {
@@ -544,14 +609,28 @@ async fn actor(env: Rc<Env>, idx: usize, h: usize, ops: Vec<Op>) {
                 let tag = n * NCLASS as u32 + (class as u32 % NCLASS as u32);
                 let mut data = tag.to_le_bytes().to_vec();
                 data.extend_from_slice(&[0xC1, 0x9C]);
-                let res = socks[slot].as_ref().unwrap().send_to(&data, SocketAddr::new(ip, UDP_PORT + port as u16)).await;
+                let sock = socks[slot].as_ref().unwrap();
+                let res = match &target {
+                    Target::Ip(ip) => sock.send_to(&data, SocketAddr::new(*ip, UDP_PORT + port as u16)).await,
+                    Target::Name(name) => sock.send_to(&data, (name.as_str(), UDP_PORT + port as u16)).await,
+                };
+                if let Target::Name(_) = target {
+                    env.log(Ev::Note("udp:by-hostname"));
+                }
                 env.log(Ev::Sent { tag, src: h, actor: idx, dst: dk, port, v6, ok: res.is_ok() });
             }
             Op::Tcp { dst, len, v6 } => {
-                let (dk, ip) = resolve(&env, h, dst, v6);
+                let (dk, target, _v6) = resolve(&env, h, dst, v6);
+                if let Target::Name(_) = target {
+                    env.log(Ev::Note("tcp:by-hostname"));
+                }
                 let data: Vec<u8> = (0..len.max(1) as usize).map(|i| (i * 31 + 7) as u8).collect();
                 let r = with_timeout(&env, TCP_TIMEOUT_TICKS, async {
-                    let mut s = TcpStream::connect(SocketAddr::new(ip, TCP_PORT)).await.map_err(|e| format!("connect:{:?}", e.kind()))?;
+                    let conn = match &target {
+                        Target::Ip(ip) => TcpStream::connect(SocketAddr::new(*ip, TCP_PORT)).await,
+                        Target::Name(name) => TcpStream::connect((name.as_str(), TCP_PORT)).await,
+                    };
+                    let mut s = conn.map_err(|e| format!("connect:{:?}", e.kind()))?;
                     s.write_all(&data).await.map_err(|e| format!("write:{:?}", e.kind()))?;
                     s.shutdown().await.map_err(|e| format!("shutdown:{:?}", e.kind()))?;
                     let mut b = [0u8; 16];
@@ -652,10 +731,10 @@ fn run_fixture(sc: &Scenario, hz: u64) -> Vec<Rec> {
         Mode::ClientServer => {
             let mut cs = turmoil_net::fixture::ClientServer::new();
             for h in 0..n - 1 {
-                cs = cs.server([host_ip(h, false), host_ip(h, true)], fixture_host(env.clone(), sc.clone(), h, hz));
+                cs = cs.server(host_addrs(h), fixture_host(env.clone(), sc.clone(), h, hz));
             }
             // servers tear themselves down at `hz`, the client (= end of the run) one tick later
-            cs.run([host_ip(n - 1, false), host_ip(n - 1, true)], fixture_host(env.clone(), sc.clone(), n - 1, hz + 1));
+            cs.run(host_addrs(n - 1), fixture_host(env.clone(), sc.clone(), n - 1, hz + 1));
         }
         _ => {
             turmoil_net::fixture::lo(fixture_host(env.clone(), sc.clone(), 0, hz + 1));
@@ -709,7 +788,7 @@ fn run_prim(sc: &Scenario, hz: u64) -> Vec<Rec> {
     let env = Env::new(sc);
     let n = env.n;
     let mut net = Net::new();
-    let ids: Vec<HostId> = (0..n).map(|h| net.add_host([host_ip(h, false), host_ip(h, true)])).collect();
+    let ids: Vec<HostId> = (0..n).map(|h| net.add_host(host_addrs(h))).collect();
     for r in &sc.permanent {
         if let Some(r) = env.rule_idx(*r) {
             if !env.installed.borrow()[r] {
@@ -860,6 +939,17 @@ fn is_lo(k: &PKey) -> bool {
     k.src.is_loopback() || k.dst.is_loopback()
 }
 
+/// The packet is addressed to one of the addresses of the host it comes from (it never leaves it).
+fn is_own(k: &PKey) -> bool {
+    match (ip_owner(k.src), ip_owner(k.dst)) {
+        (Some(a), Some(b)) => a == b,
+        _ => false,
+    }
+}
+
+const SIG_OWN_RULE: &str = "own-address: a packet addressed to one of the sending host's own addresses was shown to a rule";
+const SIG_OWN_EGRESS: &str = "own-address: a packet addressed to one of the sending host's own addresses surfaced in egress_all";
+
 #[derive(Clone, Debug)]
 struct Group {
     t: u64,
@@ -947,6 +1037,9 @@ impl<'a> Model<'a> {
     fn on_inv(&mut self, t: u64, rule: usize, key: &PKey, said: V, prim: bool) -> Result<(), (String, String)> {
         if is_lo(key) {
             return Err(("loopback: a loopback packet was shown to a rule".into(), format!("rule {rule} saw {key:?} at t={t}")));
+        }
+        if is_own(key) {
+            return Err((SIG_OWN_RULE.into(), format!("rule {rule} saw {key:?} at t={t}; chain (model) {:?}", self.chain)));
         }
         if prim {
             match &self.cur {
@@ -1058,6 +1151,23 @@ fn judge(sc: &Scenario, log: &[Rec], hz: u64, prim: bool, out: &mut Outcome) -> 
     let mut prim_evals: BTreeMap<u32, u32> = BTreeMap::new();
     let mut changed_mid_round = false;
     let mut evals_this_round: (u64, u32) = (u64::MAX, 0);
+    // every TCP transfer of the scenario stays on its host and at most one actor per host opens any
+    let tcp_undisturbed = {
+        let local = |d: &Dest| match d {
+            Dest::Loopback | Dest::Own | Dest::OwnName | Dest::LoName => true,
+            Dest::Peer(_) | Dest::Nowhere => false,
+        };
+        let mut per_host = vec![0usize; n];
+        let mut all_local = true;
+        for a in &sc.actors {
+            let tcp: Vec<&Dest> = a.ops.iter().filter_map(|o| if let Op::Tcp { dst, .. } = o { Some(dst) } else { None }).collect();
+            if !tcp.is_empty() {
+                per_host[a.host as usize % n] += 1;
+            }
+            all_local &= tcp.iter().all(|d| local(d));
+        }
+        all_local && per_host.iter().all(|c| *c <= 1)
+    };
 
     for (i, rec) in log.iter().enumerate() {
         let t = rec.t;
@@ -1117,6 +1227,9 @@ fn judge(sc: &Scenario, log: &[Rec], hz: u64, prim: bool, out: &mut Outcome) -> 
                 if is_lo(key) {
                     return Err(("loopback: a loopback packet surfaced in egress_all".into(), format!("{key:?} at t={t}")));
                 }
+                if is_own(key) {
+                    return Err((SIG_OWN_EGRESS.into(), format!("{key:?} at t={t}")));
+                }
                 if evals_this_round.0 != t {
                     evals_this_round = (t, 0);
                 }
@@ -1139,10 +1252,26 @@ fn judge(sc: &Scenario, log: &[Rec], hz: u64, prim: bool, out: &mut Outcome) -> 
             }
             Ev::Inv { rule, key, said } => m.on_inv(t, *rule, key, *said, prim)?,
             Ev::Recv { host, port, v6, tag } => recvs.push((t, *host, *port, *v6, *tag)),
-            Ev::Tcp { dst, outcome, .. } => {
+            Ev::Tcp { dst, outcome, host } => {
+                if matches!(dst, DK::Loop | DK::Own) {
+                    if !m.chain.is_empty() {
+                        out.label(if *dst == DK::Own { "own-address:tcp-finished-under-installed-rules" } else { "loopback:tcp-finished-under-installed-rules" });
+                    }
+                    // a transfer that stays on its host cannot be dropped or delayed by rules; when
+                    // no other TCP transfer competes for the host's acceptor it completes in time
+                    if tcp_undisturbed && outcome != "ok" {
+                        let sig = if *dst == DK::Own {
+                            "own-address: a TCP transfer to the sending host's own address did not complete"
+                        } else {
+                            "sanity: a loopback TCP transfer did not complete"
+                        };
+                        return Err((sig.into(), format!("host {host} at t={t}: outcome {outcome}; chain (model) {:?}", m.chain)));
+                    }
+                }
                 out.label(format!("tcp:{}:{}", match dst { DK::Remote(_) => "remote", DK::Loop => "loopback", DK::Own => "own", DK::Nowhere => "unrouted" }, outcome.split(':').next().unwrap_or("?")));
             }
             Ev::Served { .. } => {}
+            Ev::Note(l) => out.label(*l),
         }
     }
     m.close()?;
@@ -1191,6 +1320,9 @@ fn judge(sc: &Scenario, log: &[Rec], hz: u64, prim: bool, out: &mut Outcome) -> 
         if s.dst == DK::Loop && !gs.is_empty() {
             return Err(("loopback: a loopback packet was shown to a rule".into(), format!("tag {tag}")));
         }
+        if s.dst == DK::Own && !gs.is_empty() {
+            return Err((SIG_OWN_RULE.into(), format!("tag {tag}: {gs:?}")));
+        }
         if prim {
             let evals = prim_evals.get(tag).copied().unwrap_or(0);
             match s.dst {
@@ -1200,7 +1332,10 @@ fn judge(sc: &Scenario, log: &[Rec], hz: u64, prim: bool, out: &mut Outcome) -> 
                     }
                 }
                 DK::Own => {
-                    out.label(if evals == 0 { "own-address:folded" } else { "own-address:egressed" });
+                    if evals != 0 {
+                        return Err((SIG_OWN_EGRESS.into(), format!("tag {tag}: {evals} times")));
+                    }
+                    out.label("own-address:folded");
                 }
                 DK::Remote(_) | DK::Nowhere => {
                     if evals != 1 && s.t + 2 * TICK <= end_t {
@@ -1212,19 +1347,25 @@ fn judge(sc: &Scenario, log: &[Rec], hz: u64, prim: bool, out: &mut Outcome) -> 
         }
         // ---- fixtures: completeness + timing
         let te = s.t + TICK - s.t % TICK;
-        let local = matches!(s.dst, DK::Loop) || (s.dst == DK::Own && gs.is_empty());
+        let local = matches!(s.dst, DK::Loop | DK::Own);
         if local {
+            let chain = chain_at(te);
+            if !chain.is_empty() {
+                out.label(if s.dst == DK::Own { "own-address:sent-under-installed-rules" } else { "loopback:sent-under-installed-rules" });
+                if chain.iter().any(|r| sc.rules[*r].table.iter().any(|v| *v != V::Pass)) {
+                    out.label(if s.dst == DK::Own { "own-address:sent-under-dropping/delaying-rules" } else { "loopback:sent-under-dropping/delaying-rules" });
+                }
+            }
             if s.dst == DK::Own {
                 out.label("own-address:folded");
             }
-            // not a C19 claim; a missing loopback datagram would point at the harness
+            // traffic that stays on its host is outside the rules' reach: whatever is installed,
+            // the datagram arrives
             if rs.is_empty() && te + TICK < end_t {
-                return Err(("sanity: loopback datagram never arrived".into(), format!("tag {tag} sent at {}", s.t)));
+                let sig = if s.dst == DK::Own { "own-address: a datagram to the sending host's own address never arrived" } else { "sanity: loopback datagram never arrived" };
+                return Err((sig.into(), format!("tag {tag} sent at {}; chain at tick {te}: {chain:?}", s.t)));
             }
             continue;
-        }
-        if s.dst == DK::Own {
-            out.label("own-address:egressed");
         }
         if te + TICK >= end_t {
             continue; // sent at the very end of the run: its tick may not have happened
@@ -1436,7 +1577,15 @@ fn rule_strategy() -> BoxedStrategy<RuleSpec> {
 }
 
 fn dest_strategy() -> BoxedStrategy<Dest> {
-    prop_oneof![8 => (0u8..2).prop_map(Dest::Peer), 2 => Just(Dest::Loopback), 2 => Just(Dest::Own), 1 => Just(Dest::Nowhere)].boxed()
+    prop_oneof![
+        8 => (0u8..2).prop_map(Dest::Peer),
+        2 => Just(Dest::Loopback),
+        2 => Just(Dest::Own),
+        1 => Just(Dest::Nowhere),
+        1 => Just(Dest::OwnName),
+        1 => Just(Dest::LoName),
+    ]
+    .boxed()
 }
 
 fn op_strategy() -> BoxedStrategy<Op> {
@@ -1564,9 +1713,77 @@ fn small_chains(max_n: usize) -> Vec<Scenario> {
     v
 }
 
+/// Traffic that stays on its host, under every kind of rule: (primitive | ClientServer) x (no rule |
+/// one constant rule Pass | Drop | Deliver(1 ms) | Deliver(2.5 ms), installed permanently / from the
+/// scheduler side / from a task where the mode allows) x destination (127.0.0.1 | ::1 |
+/// "localhost" | own v4 literal | own v6 literal | own hostname) x (tagged UDP bursts | a TCP
+/// transfer) x sending host.  Every burst also carries a datagram to a peer, so the rule is
+/// demonstrably live while the self-addressed traffic passes it by.
+fn self_addressed() -> Vec<Scenario> {
+    let dests = [
+        (Dest::Loopback, false),
+        (Dest::Loopback, true),
+        (Dest::LoName, false),
+        (Dest::Own, false),
+        (Dest::Own, true),
+        (Dest::OwnName, false),
+    ];
+    let verdicts = [None, Some(V::Pass), Some(V::Drop), Some(V::Del(1000)), Some(V::Del(2500))];
+    let mut v = Vec::new();
+    for mode in [Mode::Prim, Mode::ClientServer] {
+        for verdict in verdicts {
+            // install point: 0 permanent, 1 scheduler side, 2 task (fixtures: task only)
+            let points: &[u8] = if verdict.is_none() { &[2] } else if mode == Mode::Prim { &[0, 1, 2] } else { &[2] };
+            for point in points {
+                for (dst, v6) in dests {
+                    for tcp in [false, true] {
+                        for host in 0..2u8 {
+                            let rules: Vec<RuleSpec> = verdict.iter().map(|x| RuleSpec { table: vec![*x; NCLASS], stateful: false }).collect();
+                            let mut ops = Vec::new();
+                            let mut permanent = Vec::new();
+                            let mut sched = Vec::new();
+                            if verdict.is_some() {
+                                match point {
+                                    0 => permanent.push(0),
+                                    1 => sched.push(SchedAct { round: 0, pos: 0, act: SAct::Install(0) }),
+                                    _ => ops.push(Op::Install(0)),
+                                }
+                            }
+                            let peer = |class: u8| Op::Udp { dst: Dest::Peer(0), port: 0, class, v6: false };
+                            ops.push(Op::Sleep(1));
+                            if tcp {
+                                ops.extend([peer(0), Op::Tcp { dst, len: 3000, v6 }, peer(1), Op::Tcp { dst, len: 10, v6 }]);
+                            } else {
+                                ops.extend([
+                                    peer(0),
+                                    Op::Udp { dst, port: 0, class: 1, v6 },
+                                    Op::Udp { dst, port: 1, class: 2, v6 },
+                                    Op::Sleep(1),
+                                    Op::Udp { dst, port: 0, class: 3, v6 },
+                                    peer(4),
+                                    Op::Sleep(2),
+                                    Op::Udp { dst, port: 1, class: 5, v6 },
+                                ]);
+                            }
+                            v.push(Scenario { mode, nhosts: 2, rules, permanent, actors: vec![Actor { host, ops }], sched, late_guard_drop: false });
+                        }
+                    }
+                }
+            }
+        }
+    }
+    v
+}
+
 fn check(tier: Tier, seed: u64) -> i32 {
     let ctx = Ctx::new("C19", tier, seed, "exploration");
     ctx.replay_corpus(&replay);
+    let selfs = self_addressed();
+    let sdesc = format!(
+        "{} scenarios: (primitive | ClientServer) x (no rule | one constant rule Pass | Drop | Deliver(1 ms) | Deliver(2.5 ms) at every install point the mode offers) x destination (127.0.0.1 | ::1 | \"localhost\" | own v4 address | own v6 address | own hostname) x (UDP bursts | TCP transfers) x sending host; every burst also sends to a peer",
+        selfs.len()
+    );
+    ctx.exhaustive("self-addressed", &sdesc, Box::new(selfs.into_iter()), &run);
     let max_n = tier.pick(3, 4);
     let space = small_chains(max_n);
     let desc = format!(
@@ -1576,13 +1793,15 @@ fn check(tier: Tier, seed: u64) -> i32 {
     ctx.exhaustive("small-chains", &desc, Box::new(space.into_iter()), &run);
     ctx.random("chains", tier.pick(40_000, 600_000), &|| strategy(), &run);
     ctx.finish(
-        "bounded-exhaustive small chains (see sub-tier description) plus random scenarios: 0-6 table-driven rules (8 packet classes -> Pass | Drop | Deliver(d), d in {0, 0.3, 0.5, 0.999, 1, 1.001, 1.5, 2, 2.5, 3, 4 ms}; a quarter of the rules are stateful) x 1-4 actor scripts on 2-3 hosts (install via turmoil_net::rule, drop / forget / mem::forget guards, drop an alias guard, tagged UDP to a peer / loopback / own address / unrouted address on v4 and v6, small TCP transfers, sleeps) x mode: primitive harness (Net::rule before enter, EnterGuard::rule and guard drops placed between single evaluate calls), fixture::ClientServer, fixture::lo. Non-trivial = some packet was decided by a non-first rule of a chain of >= 2 rules, or two datagrams to one socket had equal deadlines (under a non-empty chain, or evaluated in different ticks) or crossing deadlines; distinct by scenario hash.",
+        "bounded-exhaustive small chains and the bounded family 'self-addressed' (see sub-tier descriptions) plus random scenarios: 0-6 table-driven rules (8 packet classes -> Pass | Drop | Deliver(d), d in {0, 0.3, 0.5, 0.999, 1, 1.001, 1.5, 2, 2.5, 3, 4 ms}; a quarter of the rules are stateful) x 1-4 actor scripts on 2-3 hosts (install via turmoil_net::rule, drop / forget / mem::forget guards, drop an alias guard, tagged UDP and small TCP transfers to a peer / loopback (127.0.0.1, ::1, \"localhost\") / the sender's own address (v4 literal, v6 literal, own hostname) / an unrouted address, sleeps) x mode: primitive harness (Net::rule before enter, EnterGuard::rule and guard drops placed between single evaluate calls), fixture::ClientServer, fixture::lo. Non-trivial = some packet was decided by a non-first rule of a chain of >= 2 rules, or two datagrams to one socket had equal deadlines (under a non-empty chain, or evaluated in different ticks) or crossing deadlines; distinct by scenario hash.",
         &[
             "the timing half (delivery window, equal-deadline order, dropped never delivered) is asserted only inside fixture::ClientServer / fixture::lo and only for UDP datagrams; TCP segments are checked for the first-match half only (every emission, including retransmissions, is its own packet)",
             "T_e (the instant a packet left its host) is the fixture tick following the send: sends happen at whole milliseconds of the paused tokio clock, so T_e = t_send + 1 ms; the receive instant is the tokio time at which a task parked in recv_from is resumed",
             "inside the fixtures rules can only be installed from tasks (the fixture owns Net and EnterGuard); Net::rule and EnterGuard::rule are exercised in the primitive mode",
             "the order of two packets with different deadlines delivered in the same tick is not asserted (the property only claims emission order for equal deadlines); it is counted as obs-deadline-inversions-within-a-tick",
-            "a packet to the sending host's own address is folded inside the kernel like loopback (is_local); the docs promise this only for loopback, so such a packet is treated as loopback when no rule saw it and as an ordinary packet when one did",
+            "rules apply to packets 'leaving a host' (rule.rs, lib.rs, README) and Kernel::egress hands out only 'those leaving this host' (its rustdoc; is_local = 'one of this host's local addresses (including implicit loopback)'): a packet addressed to one of the sending host's own addresses (v4 / v6 literal or its registered hostname) is traffic that stays on the host like 127.0.0.1 / ::1, so it must never surface in egress_all nor be shown to a rule, and it arrives whatever rules are installed",
+            "every host is registered with three addresses (10.0.0.k, fd00::k and the hostname hk, which the name table maps to 192.168.0.k; the mapping is checked at run time); hostnames resolve to IPv4, so by-hostname sends use the v4 socket",
+            "a self-addressed TCP transfer is required to complete only when every TCP transfer of the scenario stays on its host and at most one actor per host opens any (otherwise the host's single acceptor may be busy with a connection that rules legitimately drop or delay)",
             "rule closures never install or remove rules themselves (evaluate holds the thread-local borrow); each rule table is installed at most once per run",
             "datagrams sent in the last two ticks of a run are not judged",
         ],
@@ -1635,11 +1854,13 @@ pub fn fuzz_sanitize(sc: &mut Scenario) -> bool {
             // quarters of the decoded values of those four become UDP sends (fields from the
             // value's bits; every UDP send is inside `op_strategy`'s domain at any position).
             let udp_from = |x: u16, v6: bool| Op::Udp {
-                dst: match (x >> 5) & 7 {
-                    0..=4 => Dest::Peer(((x >> 4) & 1) as u8),
-                    5 => Dest::Loopback,
-                    6 => Dest::Own,
-                    _ => Dest::Nowhere,
+                dst: match (x >> 4) & 15 {
+                    d @ 0..=8 => Dest::Peer((d & 1) as u8),
+                    9 | 10 => Dest::Loopback,
+                    11 | 12 => Dest::Own,
+                    13 => Dest::Nowhere,
+                    14 => Dest::OwnName,
+                    _ => Dest::LoName,
                 },
                 port: ((x >> 3) & 1) as u8,
                 class: (x & 7) as u8,
